@@ -728,17 +728,31 @@ pub fn c03(tier: Tier) -> i32 {
     merge_stats(&run, &all_stats);
     histories.sort();
     histories.dedup();
+    let mut histories: Vec<(TowerCfg, Vec<Ev>)> = histories.into_iter().map(|h| (cfg, h)).collect();
+    // subscriptions that expire and are purged within the history (the purge is two durable effects of its own)
+    {
+        let short = TowerCfg { slots: 3, duration: 1, grace: 1, txindex: false };
+        let add = |u, k| Ev::Add { user: u, disp: k, blob: crate::world::Blob::Valid, tsd: 42 };
+        let e = || Ev::MineP(crate::world::MineSel::Empty);
+        histories.push((short, vec![Ev::Register(1), add(1, 1), e(), e(), e(), Ev::Register(1)]));
+        histories.push((short, vec![Ev::Register(1), Ev::Register(2), add(1, 1), e(), Ev::Register(2), e(), e(), e()]));
+        histories.push((short, vec![Ev::Register(1), add(1, 1), Ev::MineP(crate::world::MineSel::Txs(vec![crate::sim::TxName::D(1)])), e(), e(), e()]));
+        // ... and one that is due for removal at the very height the tower restarts from
+        let zero = TowerCfg { slots: 3, duration: 0, grace: 0, txindex: false };
+        histories.push((zero, vec![Ev::Register(1), Ev::Register(2), e(), Ev::Register(1), e(), e()]));
+    }
     // Advance(100) completion histories (refund transaction) are added explicitly.
-    histories.push({
+    histories.push((cfg, {
         let mut h = crate::checks_t::seed("S4");
         h.push(Ev::AdvanceBulk(98));
         h.push(Ev::MineP(crate::world::MineSel::Empty));
         h.push(Ev::MineP(crate::world::MineSel::Empty));
         h
-    });
+    }));
     // Build the crash cases: every step of every history, every effect, idle; both continuations.
     let deadline = started + budget;
-    let results = par_map(&histories, Some(deadline), |_, h| {
+    let results = par_map(&histories, Some(deadline), |_, (cfg, h)| {
+        let cfg = *cfg;
         let mut viols: Vec<(String, String, CrashCase)> = Vec::new();
         let mut cases = 0u64;
         let mut points = 0u64;
@@ -794,7 +808,7 @@ pub fn c03(tier: Tier) -> i32 {
     let mut cases = 0u64;
     let mut points = 0u64;
     let mut covered = 0u64;
-    for (h, r) in histories.iter().zip(res.into_iter()) {
+    for ((_, h), r) in histories.iter().zip(res.into_iter()) {
         if let Some((c, p, v)) = r {
             covered += 1;
             cases += c;
